@@ -110,7 +110,7 @@ func Shapes(f *ast.File, fset *gotoken.FileSet, src []byte) []string {
 			}
 		}
 	}
-	var braceInHeader, ellipsisInHeader, emptyCmd, branchIdent, guardInParen, classTag, cmdNextLine, onelineLambda bool
+	var braceInHeader, ellipsisInHeader, emptyCmd, guardInParen, classTag, cmdNextLine, onelineLambda bool
 	line := func(p gotoken.Pos) int { return fset.Position(p).Line }
 	header := func(n goast.Node) {
 		if n == nil {
@@ -210,13 +210,6 @@ func Shapes(f *ast.File, fset *gotoken.FileSet, src []byte) []string {
 			case "break", "continue", "goto", "fallthrough":
 				keywordIdent = true
 			}
-		case *ast.ExprStmt:
-			if id, ok := v.X.(*ast.Ident); ok {
-				switch id.Name {
-				case "break", "continue", "goto", "fallthrough":
-					branchIdent = true
-				}
-			}
 		case *ast.ValueSpec:
 			if v.Tag != nil {
 				classTag = true
@@ -244,27 +237,26 @@ func Shapes(f *ast.File, fset *gotoken.FileSet, src []byte) []string {
 		}
 		return true
 	})
-	// shapes without a proposed repair first: once the repaired ones are flipped to "fixed", a source
-	// that shows both kinds still fails under a listed class
-	add(ellipsisInHeader, "elem-ellipsis-in-header")
+	// most definite root causes first; a check takes the first shape that is still listed as a
+	// known finding of its property
+	add(bareSharp, "bare-sharp-comment")
+	add(sharp, "sharp-comment")
+	add(classTag, "class-field-tag")
 	add(commentInOverload, "comment-in-overload-decl")
-	add(commentInMatrix, "comment-in-matrix-lit")
-	add(envSplit, "env-expr-split-over-lines")
-	add(braceInHeader, "brace-in-header")
-	add(guardInParen, "type-guard-in-paren")
+	add(commentCstr, "comment-before-cstring")
+	add(emptyCmd, "empty-command-call")
 	add(cmdNextLine, "command-arg-on-next-line")
+	add(keywordIdent, "branch-keyword-as-identifier")
+	add(guardInParen, "type-guard-in-paren")
+	add(envSplit, "env-expr-split-over-lines")
+	add(commentInMatrix, "comment-in-matrix-lit")
+	add(braceInHeader, "brace-in-header")
+	add(ellipsisInHeader, "elem-ellipsis-in-header")
 	add(parenLambdaBlock, "paren-lambda-block")
 	add(lambdaArgNewline, "lambda-last-arg-before-newline")
 	add(onelineLambda, "oneline-lambda-block")
-	add(keywordIdent && !branchIdent, "branch-keyword-as-identifier")
 	add(importRparen, "import-rparen-on-spec-line")
 	add(trailingPair, "trailing-comments-around-line-break")
-	add(bareSharp, "bare-sharp-comment")
-	add(sharp, "sharp-comment")
-	add(commentCstr, "comment-before-cstring")
-	add(emptyCmd, "empty-command-call")
-	add(branchIdent, "branch-keyword-before-rbrace")
-	add(classTag, "class-field-tag")
 	return out
 }
 
